@@ -248,3 +248,255 @@ package configf
 //@   modifies buf.buf.bytes
 //@   ensures [C03] result == nil && buf.buf.bytes == pre
 //@   safety [C03]
+//
+//@ func (*Config).LoadConfigWithContext
+//@   noframe
+//@   site ).Write#0 assert [C01,C16] $2 == 1
+//@   site ).Write#1 assert [C01,C16] $2 == 2
+//@   site ).Write#2 assert [C01,C16] $2 == 3
+//@   site ).Write#3 assert [C01,C16] $2 == 4
+//@   sites ).Write = 4
+//@   site TarsInvoke#0 assert [C01,C16] $1 == 0 && $2 == "loadConfig"
+//@   sites TarsInvoke = 1
+//@   site ).Read#0 assert [C01,C16] $2 == 0
+//@   site ).Read#1 assert [C01,C16] $2 == 4
+//@   sites ).Read = 2
+//@   site TarsInvoke#0 assert [C01,C16] ((len(opts) == 1 || len(opts) == 2) ==> $5 == opts[0]) && (len(opts) == 2 ==> $4 == opts[1]) && $5 == contextMap && $4 == statusMap && $6 == tarsResp
+//@   site TarsInvoke#0 ghostafter obj.gresp = addr(*tarsResp)
+//@   site TarsInvoke#0 ghostafter obj.gctx = contextMap
+//@   site TarsInvoke#0 ghostafter obj.gsta = statusMap
+//@   site NewReader#0 ghostafter obj.gresp = addr(*tarsResp)
+//@   site NewReader#0 ghostafter obj.gctx = contextMap
+//@   site NewReader#0 ghostafter obj.gsta = statusMap
+//@   site ).Read#0 ghostafter obj.gresp = addr(*tarsResp)
+//@   site ).Read#0 ghostafter obj.gctx = contextMap
+//@   site ).Read#0 ghostafter obj.gsta = statusMap
+//@   site ).Read#1 ghostafter obj.gresp = addr(*tarsResp)
+//@   site ).Read#1 ghostafter obj.gctx = contextMap
+//@   site ).Read#1 ghostafter obj.gsta = statusMap
+//@   ensures [C01,C16] (result1 == nil && len(opts) == 1) ==> (forall k: seq {cast(obj.gctx, "map[string]string")[k]} {haskey(cast(obj.gctx, "map[string]string"), k)} :: haskey(cast(obj.gctx, "map[string]string"), k) ==> (haskey(cast(obj.gresp, "*requestf.ResponsePacket").Context, k) && cast(obj.gctx, "map[string]string")[k] == cast(obj.gresp, "*requestf.ResponsePacket").Context[k]))
+//@   ensures [C01,C16] (result1 == nil && len(opts) == 2) ==> (forall k: seq {cast(obj.gsta, "map[string]string")[k]} {haskey(cast(obj.gsta, "map[string]string"), k)} :: haskey(cast(obj.gsta, "map[string]string"), k) ==> (haskey(cast(obj.gresp, "*requestf.ResponsePacket").Status, k) && cast(obj.gsta, "map[string]string")[k] == cast(obj.gresp, "*requestf.ResponsePacket").Status[k]))
+//@   ensures [C01,C16] (result1 == nil && len(opts) == 2 && obj.gsta != obj.gctx && obj.gsta != cast(obj.gresp, "*requestf.ResponsePacket").Context) ==> (forall k: seq {cast(obj.gctx, "map[string]string")[k]} {haskey(cast(obj.gctx, "map[string]string"), k)} :: haskey(cast(obj.gctx, "map[string]string"), k) ==> (haskey(cast(obj.gresp, "*requestf.ResponsePacket").Context, k) && cast(obj.gctx, "map[string]string")[k] == cast(obj.gresp, "*requestf.ResponsePacket").Context[k]))
+//@   loop 0 invariant obj.gresp == addr(*tarsResp) && obj.gctx == contextMap && obj.gsta == statusMap && len(opts) == 1 && (forall k: seq {visited(0, k)} :: visited(0, k) ==> !haskey(contextMap, k)) && (forall k: seq {haskey(contextMap, k)} :: haskey(contextMap, k) ==> atentry(0, haskey(contextMap, k)))
+//@   loop 1 invariant obj.gresp == addr(*tarsResp) && obj.gctx == contextMap && obj.gsta == statusMap && len(opts) == 1 && (forall k: seq {contextMap[k]} {haskey(contextMap, k)} :: haskey(contextMap, k) ==> (haskey(tarsResp.Context, k) && contextMap[k] == tarsResp.Context[k]))
+//@   loop 2 invariant obj.gresp == addr(*tarsResp) && obj.gctx == contextMap && obj.gsta == statusMap && len(opts) == 2 && (forall k: seq {visited(2, k)} :: visited(2, k) ==> !haskey(contextMap, k)) && (forall k: seq {haskey(contextMap, k)} :: haskey(contextMap, k) ==> atentry(2, haskey(contextMap, k)))
+//@   loop 3 invariant obj.gresp == addr(*tarsResp) && obj.gctx == contextMap && obj.gsta == statusMap && len(opts) == 2 && (forall k: seq {contextMap[k]} {haskey(contextMap, k)} :: haskey(contextMap, k) ==> (haskey(tarsResp.Context, k) && contextMap[k] == tarsResp.Context[k]))
+//@   loop 4 invariant obj.gresp == addr(*tarsResp) && obj.gctx == contextMap && obj.gsta == statusMap && len(opts) == 2 && (forall k: seq {visited(4, k)} :: visited(4, k) ==> !haskey(statusMap, k)) && (forall k: seq {haskey(statusMap, k)} :: haskey(statusMap, k) ==> atentry(4, haskey(statusMap, k))) && ((statusMap != contextMap && statusMap != tarsResp.Context) ==> (forall k: seq {contextMap[k]} {haskey(contextMap, k)} :: haskey(contextMap, k) ==> (haskey(tarsResp.Context, k) && contextMap[k] == tarsResp.Context[k])))
+//@   loop 5 invariant obj.gresp == addr(*tarsResp) && obj.gctx == contextMap && obj.gsta == statusMap && len(opts) == 2 && (forall k: seq {statusMap[k]} {haskey(statusMap, k)} :: haskey(statusMap, k) ==> (haskey(tarsResp.Status, k) && statusMap[k] == tarsResp.Status[k])) && ((statusMap != contextMap && statusMap != tarsResp.Context) ==> (forall k: seq {contextMap[k]} {haskey(contextMap, k)} :: haskey(contextMap, k) ==> (haskey(tarsResp.Context, k) && contextMap[k] == tarsResp.Context[k])))
+//@   loop 0 modifies mapcells(contextMap)
+//@   loop 1 modifies mapcells(contextMap)
+//@   loop 2 modifies mapcells(contextMap)
+//@   loop 3 modifies mapcells(contextMap)
+//@   loop 4 modifies mapcells(statusMap)
+//@   loop 5 modifies mapcells(statusMap)
+//
+//@ func (*Config).LoadConfigOneWayWithContext
+//@   noframe
+//@   site ).Write#0 assert [C01,C16] $2 == 1
+//@   site ).Write#1 assert [C01,C16] $2 == 2
+//@   site ).Write#2 assert [C01,C16] $2 == 3
+//@   site ).Write#3 assert [C01,C16] $2 == 4
+//@   sites ).Write = 4
+//@   sites ).Read = 0
+//@   site TarsInvoke#0 assert [C01,C16] $1 == 1 && $2 == "loadConfig"
+//@   sites TarsInvoke = 1
+//
+//@ func (*Config).LoadConfigByHostWithContext
+//@   noframe
+//@   site ).Write#0 assert [C01,C16] $2 == 1
+//@   site ).Write#1 assert [C01,C16] $2 == 2
+//@   site ).Write#2 assert [C01,C16] $2 == 3
+//@   site ).Write#3 assert [C01,C16] $2 == 4
+//@   sites ).Write = 4
+//@   site TarsInvoke#0 assert [C01,C16] $1 == 0 && $2 == "loadConfigByHost"
+//@   sites TarsInvoke = 1
+//@   site ).Read#0 assert [C01,C16] $2 == 0
+//@   site ).Read#1 assert [C01,C16] $2 == 4
+//@   sites ).Read = 2
+//@   site TarsInvoke#0 assert [C01,C16] ((len(opts) == 1 || len(opts) == 2) ==> $5 == opts[0]) && (len(opts) == 2 ==> $4 == opts[1]) && $5 == contextMap && $4 == statusMap && $6 == tarsResp
+//@   site TarsInvoke#0 ghostafter obj.gresp = addr(*tarsResp)
+//@   site TarsInvoke#0 ghostafter obj.gctx = contextMap
+//@   site TarsInvoke#0 ghostafter obj.gsta = statusMap
+//@   site NewReader#0 ghostafter obj.gresp = addr(*tarsResp)
+//@   site NewReader#0 ghostafter obj.gctx = contextMap
+//@   site NewReader#0 ghostafter obj.gsta = statusMap
+//@   site ).Read#0 ghostafter obj.gresp = addr(*tarsResp)
+//@   site ).Read#0 ghostafter obj.gctx = contextMap
+//@   site ).Read#0 ghostafter obj.gsta = statusMap
+//@   site ).Read#1 ghostafter obj.gresp = addr(*tarsResp)
+//@   site ).Read#1 ghostafter obj.gctx = contextMap
+//@   site ).Read#1 ghostafter obj.gsta = statusMap
+//@   ensures [C01,C16] (result1 == nil && len(opts) == 1) ==> (forall k: seq {cast(obj.gctx, "map[string]string")[k]} {haskey(cast(obj.gctx, "map[string]string"), k)} :: haskey(cast(obj.gctx, "map[string]string"), k) ==> (haskey(cast(obj.gresp, "*requestf.ResponsePacket").Context, k) && cast(obj.gctx, "map[string]string")[k] == cast(obj.gresp, "*requestf.ResponsePacket").Context[k]))
+//@   ensures [C01,C16] (result1 == nil && len(opts) == 2) ==> (forall k: seq {cast(obj.gsta, "map[string]string")[k]} {haskey(cast(obj.gsta, "map[string]string"), k)} :: haskey(cast(obj.gsta, "map[string]string"), k) ==> (haskey(cast(obj.gresp, "*requestf.ResponsePacket").Status, k) && cast(obj.gsta, "map[string]string")[k] == cast(obj.gresp, "*requestf.ResponsePacket").Status[k]))
+//@   ensures [C01,C16] (result1 == nil && len(opts) == 2 && obj.gsta != obj.gctx && obj.gsta != cast(obj.gresp, "*requestf.ResponsePacket").Context) ==> (forall k: seq {cast(obj.gctx, "map[string]string")[k]} {haskey(cast(obj.gctx, "map[string]string"), k)} :: haskey(cast(obj.gctx, "map[string]string"), k) ==> (haskey(cast(obj.gresp, "*requestf.ResponsePacket").Context, k) && cast(obj.gctx, "map[string]string")[k] == cast(obj.gresp, "*requestf.ResponsePacket").Context[k]))
+//@   loop 0 invariant obj.gresp == addr(*tarsResp) && obj.gctx == contextMap && obj.gsta == statusMap && len(opts) == 1 && (forall k: seq {visited(0, k)} :: visited(0, k) ==> !haskey(contextMap, k)) && (forall k: seq {haskey(contextMap, k)} :: haskey(contextMap, k) ==> atentry(0, haskey(contextMap, k)))
+//@   loop 1 invariant obj.gresp == addr(*tarsResp) && obj.gctx == contextMap && obj.gsta == statusMap && len(opts) == 1 && (forall k: seq {contextMap[k]} {haskey(contextMap, k)} :: haskey(contextMap, k) ==> (haskey(tarsResp.Context, k) && contextMap[k] == tarsResp.Context[k]))
+//@   loop 2 invariant obj.gresp == addr(*tarsResp) && obj.gctx == contextMap && obj.gsta == statusMap && len(opts) == 2 && (forall k: seq {visited(2, k)} :: visited(2, k) ==> !haskey(contextMap, k)) && (forall k: seq {haskey(contextMap, k)} :: haskey(contextMap, k) ==> atentry(2, haskey(contextMap, k)))
+//@   loop 3 invariant obj.gresp == addr(*tarsResp) && obj.gctx == contextMap && obj.gsta == statusMap && len(opts) == 2 && (forall k: seq {contextMap[k]} {haskey(contextMap, k)} :: haskey(contextMap, k) ==> (haskey(tarsResp.Context, k) && contextMap[k] == tarsResp.Context[k]))
+//@   loop 4 invariant obj.gresp == addr(*tarsResp) && obj.gctx == contextMap && obj.gsta == statusMap && len(opts) == 2 && (forall k: seq {visited(4, k)} :: visited(4, k) ==> !haskey(statusMap, k)) && (forall k: seq {haskey(statusMap, k)} :: haskey(statusMap, k) ==> atentry(4, haskey(statusMap, k))) && ((statusMap != contextMap && statusMap != tarsResp.Context) ==> (forall k: seq {contextMap[k]} {haskey(contextMap, k)} :: haskey(contextMap, k) ==> (haskey(tarsResp.Context, k) && contextMap[k] == tarsResp.Context[k])))
+//@   loop 5 invariant obj.gresp == addr(*tarsResp) && obj.gctx == contextMap && obj.gsta == statusMap && len(opts) == 2 && (forall k: seq {statusMap[k]} {haskey(statusMap, k)} :: haskey(statusMap, k) ==> (haskey(tarsResp.Status, k) && statusMap[k] == tarsResp.Status[k])) && ((statusMap != contextMap && statusMap != tarsResp.Context) ==> (forall k: seq {contextMap[k]} {haskey(contextMap, k)} :: haskey(contextMap, k) ==> (haskey(tarsResp.Context, k) && contextMap[k] == tarsResp.Context[k])))
+//@   loop 0 modifies mapcells(contextMap)
+//@   loop 1 modifies mapcells(contextMap)
+//@   loop 2 modifies mapcells(contextMap)
+//@   loop 3 modifies mapcells(contextMap)
+//@   loop 4 modifies mapcells(statusMap)
+//@   loop 5 modifies mapcells(statusMap)
+//
+//@ func (*Config).LoadConfigByHostOneWayWithContext
+//@   noframe
+//@   site ).Write#0 assert [C01,C16] $2 == 1
+//@   site ).Write#1 assert [C01,C16] $2 == 2
+//@   site ).Write#2 assert [C01,C16] $2 == 3
+//@   site ).Write#3 assert [C01,C16] $2 == 4
+//@   sites ).Write = 4
+//@   sites ).Read = 0
+//@   site TarsInvoke#0 assert [C01,C16] $1 == 1 && $2 == "loadConfigByHost"
+//@   sites TarsInvoke = 1
+//
+//@ func (*Config).CheckConfigWithContext
+//@   noframe
+//@   site ).Write#0 assert [C01,C16] $2 == 1
+//@   site ).Write#1 assert [C01,C16] $2 == 2
+//@   site ).Write#2 assert [C01,C16] $2 == 3
+//@   site ).Write#3 assert [C01,C16] $2 == 4
+//@   sites ).Write = 4
+//@   site TarsInvoke#0 assert [C01,C16] $1 == 0 && $2 == "checkConfig"
+//@   sites TarsInvoke = 1
+//@   site ).Read#0 assert [C01,C16] $2 == 0
+//@   site ).Read#1 assert [C01,C16] $2 == 4
+//@   sites ).Read = 2
+//@   site TarsInvoke#0 assert [C01,C16] ((len(opts) == 1 || len(opts) == 2) ==> $5 == opts[0]) && (len(opts) == 2 ==> $4 == opts[1]) && $5 == contextMap && $4 == statusMap && $6 == tarsResp
+//@   site TarsInvoke#0 ghostafter obj.gresp = addr(*tarsResp)
+//@   site TarsInvoke#0 ghostafter obj.gctx = contextMap
+//@   site TarsInvoke#0 ghostafter obj.gsta = statusMap
+//@   site NewReader#0 ghostafter obj.gresp = addr(*tarsResp)
+//@   site NewReader#0 ghostafter obj.gctx = contextMap
+//@   site NewReader#0 ghostafter obj.gsta = statusMap
+//@   site ).Read#0 ghostafter obj.gresp = addr(*tarsResp)
+//@   site ).Read#0 ghostafter obj.gctx = contextMap
+//@   site ).Read#0 ghostafter obj.gsta = statusMap
+//@   site ).Read#1 ghostafter obj.gresp = addr(*tarsResp)
+//@   site ).Read#1 ghostafter obj.gctx = contextMap
+//@   site ).Read#1 ghostafter obj.gsta = statusMap
+//@   ensures [C01,C16] (result1 == nil && len(opts) == 1) ==> (forall k: seq {cast(obj.gctx, "map[string]string")[k]} {haskey(cast(obj.gctx, "map[string]string"), k)} :: haskey(cast(obj.gctx, "map[string]string"), k) ==> (haskey(cast(obj.gresp, "*requestf.ResponsePacket").Context, k) && cast(obj.gctx, "map[string]string")[k] == cast(obj.gresp, "*requestf.ResponsePacket").Context[k]))
+//@   ensures [C01,C16] (result1 == nil && len(opts) == 2) ==> (forall k: seq {cast(obj.gsta, "map[string]string")[k]} {haskey(cast(obj.gsta, "map[string]string"), k)} :: haskey(cast(obj.gsta, "map[string]string"), k) ==> (haskey(cast(obj.gresp, "*requestf.ResponsePacket").Status, k) && cast(obj.gsta, "map[string]string")[k] == cast(obj.gresp, "*requestf.ResponsePacket").Status[k]))
+//@   ensures [C01,C16] (result1 == nil && len(opts) == 2 && obj.gsta != obj.gctx && obj.gsta != cast(obj.gresp, "*requestf.ResponsePacket").Context) ==> (forall k: seq {cast(obj.gctx, "map[string]string")[k]} {haskey(cast(obj.gctx, "map[string]string"), k)} :: haskey(cast(obj.gctx, "map[string]string"), k) ==> (haskey(cast(obj.gresp, "*requestf.ResponsePacket").Context, k) && cast(obj.gctx, "map[string]string")[k] == cast(obj.gresp, "*requestf.ResponsePacket").Context[k]))
+//@   loop 0 invariant obj.gresp == addr(*tarsResp) && obj.gctx == contextMap && obj.gsta == statusMap && len(opts) == 1 && (forall k: seq {visited(0, k)} :: visited(0, k) ==> !haskey(contextMap, k)) && (forall k: seq {haskey(contextMap, k)} :: haskey(contextMap, k) ==> atentry(0, haskey(contextMap, k)))
+//@   loop 1 invariant obj.gresp == addr(*tarsResp) && obj.gctx == contextMap && obj.gsta == statusMap && len(opts) == 1 && (forall k: seq {contextMap[k]} {haskey(contextMap, k)} :: haskey(contextMap, k) ==> (haskey(tarsResp.Context, k) && contextMap[k] == tarsResp.Context[k]))
+//@   loop 2 invariant obj.gresp == addr(*tarsResp) && obj.gctx == contextMap && obj.gsta == statusMap && len(opts) == 2 && (forall k: seq {visited(2, k)} :: visited(2, k) ==> !haskey(contextMap, k)) && (forall k: seq {haskey(contextMap, k)} :: haskey(contextMap, k) ==> atentry(2, haskey(contextMap, k)))
+//@   loop 3 invariant obj.gresp == addr(*tarsResp) && obj.gctx == contextMap && obj.gsta == statusMap && len(opts) == 2 && (forall k: seq {contextMap[k]} {haskey(contextMap, k)} :: haskey(contextMap, k) ==> (haskey(tarsResp.Context, k) && contextMap[k] == tarsResp.Context[k]))
+//@   loop 4 invariant obj.gresp == addr(*tarsResp) && obj.gctx == contextMap && obj.gsta == statusMap && len(opts) == 2 && (forall k: seq {visited(4, k)} :: visited(4, k) ==> !haskey(statusMap, k)) && (forall k: seq {haskey(statusMap, k)} :: haskey(statusMap, k) ==> atentry(4, haskey(statusMap, k))) && ((statusMap != contextMap && statusMap != tarsResp.Context) ==> (forall k: seq {contextMap[k]} {haskey(contextMap, k)} :: haskey(contextMap, k) ==> (haskey(tarsResp.Context, k) && contextMap[k] == tarsResp.Context[k])))
+//@   loop 5 invariant obj.gresp == addr(*tarsResp) && obj.gctx == contextMap && obj.gsta == statusMap && len(opts) == 2 && (forall k: seq {statusMap[k]} {haskey(statusMap, k)} :: haskey(statusMap, k) ==> (haskey(tarsResp.Status, k) && statusMap[k] == tarsResp.Status[k])) && ((statusMap != contextMap && statusMap != tarsResp.Context) ==> (forall k: seq {contextMap[k]} {haskey(contextMap, k)} :: haskey(contextMap, k) ==> (haskey(tarsResp.Context, k) && contextMap[k] == tarsResp.Context[k])))
+//@   loop 0 modifies mapcells(contextMap)
+//@   loop 1 modifies mapcells(contextMap)
+//@   loop 2 modifies mapcells(contextMap)
+//@   loop 3 modifies mapcells(contextMap)
+//@   loop 4 modifies mapcells(statusMap)
+//@   loop 5 modifies mapcells(statusMap)
+//
+//@ func (*Config).CheckConfigOneWayWithContext
+//@   noframe
+//@   site ).Write#0 assert [C01,C16] $2 == 1
+//@   site ).Write#1 assert [C01,C16] $2 == 2
+//@   site ).Write#2 assert [C01,C16] $2 == 3
+//@   site ).Write#3 assert [C01,C16] $2 == 4
+//@   sites ).Write = 4
+//@   sites ).Read = 0
+//@   site TarsInvoke#0 assert [C01,C16] $1 == 1 && $2 == "checkConfig"
+//@   sites TarsInvoke = 1
+//
+//@ func (*Config).LoadConfigByInfoWithContext
+//@   noframe
+//@   site ).Write#0 assert [C01,C16] $2 == 1
+//@   site ).Write#1 assert [C01,C16] $2 == 2
+//@   sites ).Write = 2
+//@   site TarsInvoke#0 assert [C01,C16] $1 == 0 && $2 == "loadConfigByInfo"
+//@   sites TarsInvoke = 1
+//@   site ).Read#0 assert [C01,C16] $2 == 0
+//@   site ).Read#1 assert [C01,C16] $2 == 2
+//@   sites ).Read = 2
+//@   site TarsInvoke#0 assert [C01,C16] ((len(opts) == 1 || len(opts) == 2) ==> $5 == opts[0]) && (len(opts) == 2 ==> $4 == opts[1]) && $5 == contextMap && $4 == statusMap && $6 == tarsResp
+//@   site TarsInvoke#0 ghostafter obj.gresp = addr(*tarsResp)
+//@   site TarsInvoke#0 ghostafter obj.gctx = contextMap
+//@   site TarsInvoke#0 ghostafter obj.gsta = statusMap
+//@   site NewReader#0 ghostafter obj.gresp = addr(*tarsResp)
+//@   site NewReader#0 ghostafter obj.gctx = contextMap
+//@   site NewReader#0 ghostafter obj.gsta = statusMap
+//@   site ).Read#0 ghostafter obj.gresp = addr(*tarsResp)
+//@   site ).Read#0 ghostafter obj.gctx = contextMap
+//@   site ).Read#0 ghostafter obj.gsta = statusMap
+//@   site ).Read#1 ghostafter obj.gresp = addr(*tarsResp)
+//@   site ).Read#1 ghostafter obj.gctx = contextMap
+//@   site ).Read#1 ghostafter obj.gsta = statusMap
+//@   ensures [C01,C16] (result1 == nil && len(opts) == 1) ==> (forall k: seq {cast(obj.gctx, "map[string]string")[k]} {haskey(cast(obj.gctx, "map[string]string"), k)} :: haskey(cast(obj.gctx, "map[string]string"), k) ==> (haskey(cast(obj.gresp, "*requestf.ResponsePacket").Context, k) && cast(obj.gctx, "map[string]string")[k] == cast(obj.gresp, "*requestf.ResponsePacket").Context[k]))
+//@   ensures [C01,C16] (result1 == nil && len(opts) == 2) ==> (forall k: seq {cast(obj.gsta, "map[string]string")[k]} {haskey(cast(obj.gsta, "map[string]string"), k)} :: haskey(cast(obj.gsta, "map[string]string"), k) ==> (haskey(cast(obj.gresp, "*requestf.ResponsePacket").Status, k) && cast(obj.gsta, "map[string]string")[k] == cast(obj.gresp, "*requestf.ResponsePacket").Status[k]))
+//@   ensures [C01,C16] (result1 == nil && len(opts) == 2 && obj.gsta != obj.gctx && obj.gsta != cast(obj.gresp, "*requestf.ResponsePacket").Context) ==> (forall k: seq {cast(obj.gctx, "map[string]string")[k]} {haskey(cast(obj.gctx, "map[string]string"), k)} :: haskey(cast(obj.gctx, "map[string]string"), k) ==> (haskey(cast(obj.gresp, "*requestf.ResponsePacket").Context, k) && cast(obj.gctx, "map[string]string")[k] == cast(obj.gresp, "*requestf.ResponsePacket").Context[k]))
+//@   loop 0 invariant obj.gresp == addr(*tarsResp) && obj.gctx == contextMap && obj.gsta == statusMap && len(opts) == 1 && (forall k: seq {visited(0, k)} :: visited(0, k) ==> !haskey(contextMap, k)) && (forall k: seq {haskey(contextMap, k)} :: haskey(contextMap, k) ==> atentry(0, haskey(contextMap, k)))
+//@   loop 1 invariant obj.gresp == addr(*tarsResp) && obj.gctx == contextMap && obj.gsta == statusMap && len(opts) == 1 && (forall k: seq {contextMap[k]} {haskey(contextMap, k)} :: haskey(contextMap, k) ==> (haskey(tarsResp.Context, k) && contextMap[k] == tarsResp.Context[k]))
+//@   loop 2 invariant obj.gresp == addr(*tarsResp) && obj.gctx == contextMap && obj.gsta == statusMap && len(opts) == 2 && (forall k: seq {visited(2, k)} :: visited(2, k) ==> !haskey(contextMap, k)) && (forall k: seq {haskey(contextMap, k)} :: haskey(contextMap, k) ==> atentry(2, haskey(contextMap, k)))
+//@   loop 3 invariant obj.gresp == addr(*tarsResp) && obj.gctx == contextMap && obj.gsta == statusMap && len(opts) == 2 && (forall k: seq {contextMap[k]} {haskey(contextMap, k)} :: haskey(contextMap, k) ==> (haskey(tarsResp.Context, k) && contextMap[k] == tarsResp.Context[k]))
+//@   loop 4 invariant obj.gresp == addr(*tarsResp) && obj.gctx == contextMap && obj.gsta == statusMap && len(opts) == 2 && (forall k: seq {visited(4, k)} :: visited(4, k) ==> !haskey(statusMap, k)) && (forall k: seq {haskey(statusMap, k)} :: haskey(statusMap, k) ==> atentry(4, haskey(statusMap, k))) && ((statusMap != contextMap && statusMap != tarsResp.Context) ==> (forall k: seq {contextMap[k]} {haskey(contextMap, k)} :: haskey(contextMap, k) ==> (haskey(tarsResp.Context, k) && contextMap[k] == tarsResp.Context[k])))
+//@   loop 5 invariant obj.gresp == addr(*tarsResp) && obj.gctx == contextMap && obj.gsta == statusMap && len(opts) == 2 && (forall k: seq {statusMap[k]} {haskey(statusMap, k)} :: haskey(statusMap, k) ==> (haskey(tarsResp.Status, k) && statusMap[k] == tarsResp.Status[k])) && ((statusMap != contextMap && statusMap != tarsResp.Context) ==> (forall k: seq {contextMap[k]} {haskey(contextMap, k)} :: haskey(contextMap, k) ==> (haskey(tarsResp.Context, k) && contextMap[k] == tarsResp.Context[k])))
+//@   loop 0 modifies mapcells(contextMap)
+//@   loop 1 modifies mapcells(contextMap)
+//@   loop 2 modifies mapcells(contextMap)
+//@   loop 3 modifies mapcells(contextMap)
+//@   loop 4 modifies mapcells(statusMap)
+//@   loop 5 modifies mapcells(statusMap)
+//
+//@ func (*Config).LoadConfigByInfoOneWayWithContext
+//@   noframe
+//@   site ).Write#0 assert [C01,C16] $2 == 1
+//@   site ).Write#1 assert [C01,C16] $2 == 2
+//@   sites ).Write = 2
+//@   sites ).Read = 0
+//@   site TarsInvoke#0 assert [C01,C16] $1 == 1 && $2 == "loadConfigByInfo"
+//@   sites TarsInvoke = 1
+//
+//@ func (*Config).CheckConfigByInfoWithContext
+//@   noframe
+//@   site ).Write#0 assert [C01,C16] $2 == 1
+//@   site ).Write#1 assert [C01,C16] $2 == 2
+//@   sites ).Write = 2
+//@   site TarsInvoke#0 assert [C01,C16] $1 == 0 && $2 == "checkConfigByInfo"
+//@   sites TarsInvoke = 1
+//@   site ).Read#0 assert [C01,C16] $2 == 0
+//@   site ).Read#1 assert [C01,C16] $2 == 2
+//@   sites ).Read = 2
+//@   site TarsInvoke#0 assert [C01,C16] ((len(opts) == 1 || len(opts) == 2) ==> $5 == opts[0]) && (len(opts) == 2 ==> $4 == opts[1]) && $5 == contextMap && $4 == statusMap && $6 == tarsResp
+//@   site TarsInvoke#0 ghostafter obj.gresp = addr(*tarsResp)
+//@   site TarsInvoke#0 ghostafter obj.gctx = contextMap
+//@   site TarsInvoke#0 ghostafter obj.gsta = statusMap
+//@   site NewReader#0 ghostafter obj.gresp = addr(*tarsResp)
+//@   site NewReader#0 ghostafter obj.gctx = contextMap
+//@   site NewReader#0 ghostafter obj.gsta = statusMap
+//@   site ).Read#0 ghostafter obj.gresp = addr(*tarsResp)
+//@   site ).Read#0 ghostafter obj.gctx = contextMap
+//@   site ).Read#0 ghostafter obj.gsta = statusMap
+//@   site ).Read#1 ghostafter obj.gresp = addr(*tarsResp)
+//@   site ).Read#1 ghostafter obj.gctx = contextMap
+//@   site ).Read#1 ghostafter obj.gsta = statusMap
+//@   ensures [C01,C16] (result1 == nil && len(opts) == 1) ==> (forall k: seq {cast(obj.gctx, "map[string]string")[k]} {haskey(cast(obj.gctx, "map[string]string"), k)} :: haskey(cast(obj.gctx, "map[string]string"), k) ==> (haskey(cast(obj.gresp, "*requestf.ResponsePacket").Context, k) && cast(obj.gctx, "map[string]string")[k] == cast(obj.gresp, "*requestf.ResponsePacket").Context[k]))
+//@   ensures [C01,C16] (result1 == nil && len(opts) == 2) ==> (forall k: seq {cast(obj.gsta, "map[string]string")[k]} {haskey(cast(obj.gsta, "map[string]string"), k)} :: haskey(cast(obj.gsta, "map[string]string"), k) ==> (haskey(cast(obj.gresp, "*requestf.ResponsePacket").Status, k) && cast(obj.gsta, "map[string]string")[k] == cast(obj.gresp, "*requestf.ResponsePacket").Status[k]))
+//@   ensures [C01,C16] (result1 == nil && len(opts) == 2 && obj.gsta != obj.gctx && obj.gsta != cast(obj.gresp, "*requestf.ResponsePacket").Context) ==> (forall k: seq {cast(obj.gctx, "map[string]string")[k]} {haskey(cast(obj.gctx, "map[string]string"), k)} :: haskey(cast(obj.gctx, "map[string]string"), k) ==> (haskey(cast(obj.gresp, "*requestf.ResponsePacket").Context, k) && cast(obj.gctx, "map[string]string")[k] == cast(obj.gresp, "*requestf.ResponsePacket").Context[k]))
+//@   loop 0 invariant obj.gresp == addr(*tarsResp) && obj.gctx == contextMap && obj.gsta == statusMap && len(opts) == 1 && (forall k: seq {visited(0, k)} :: visited(0, k) ==> !haskey(contextMap, k)) && (forall k: seq {haskey(contextMap, k)} :: haskey(contextMap, k) ==> atentry(0, haskey(contextMap, k)))
+//@   loop 1 invariant obj.gresp == addr(*tarsResp) && obj.gctx == contextMap && obj.gsta == statusMap && len(opts) == 1 && (forall k: seq {contextMap[k]} {haskey(contextMap, k)} :: haskey(contextMap, k) ==> (haskey(tarsResp.Context, k) && contextMap[k] == tarsResp.Context[k]))
+//@   loop 2 invariant obj.gresp == addr(*tarsResp) && obj.gctx == contextMap && obj.gsta == statusMap && len(opts) == 2 && (forall k: seq {visited(2, k)} :: visited(2, k) ==> !haskey(contextMap, k)) && (forall k: seq {haskey(contextMap, k)} :: haskey(contextMap, k) ==> atentry(2, haskey(contextMap, k)))
+//@   loop 3 invariant obj.gresp == addr(*tarsResp) && obj.gctx == contextMap && obj.gsta == statusMap && len(opts) == 2 && (forall k: seq {contextMap[k]} {haskey(contextMap, k)} :: haskey(contextMap, k) ==> (haskey(tarsResp.Context, k) && contextMap[k] == tarsResp.Context[k]))
+//@   loop 4 invariant obj.gresp == addr(*tarsResp) && obj.gctx == contextMap && obj.gsta == statusMap && len(opts) == 2 && (forall k: seq {visited(4, k)} :: visited(4, k) ==> !haskey(statusMap, k)) && (forall k: seq {haskey(statusMap, k)} :: haskey(statusMap, k) ==> atentry(4, haskey(statusMap, k))) && ((statusMap != contextMap && statusMap != tarsResp.Context) ==> (forall k: seq {contextMap[k]} {haskey(contextMap, k)} :: haskey(contextMap, k) ==> (haskey(tarsResp.Context, k) && contextMap[k] == tarsResp.Context[k])))
+//@   loop 5 invariant obj.gresp == addr(*tarsResp) && obj.gctx == contextMap && obj.gsta == statusMap && len(opts) == 2 && (forall k: seq {statusMap[k]} {haskey(statusMap, k)} :: haskey(statusMap, k) ==> (haskey(tarsResp.Status, k) && statusMap[k] == tarsResp.Status[k])) && ((statusMap != contextMap && statusMap != tarsResp.Context) ==> (forall k: seq {contextMap[k]} {haskey(contextMap, k)} :: haskey(contextMap, k) ==> (haskey(tarsResp.Context, k) && contextMap[k] == tarsResp.Context[k])))
+//@   loop 0 modifies mapcells(contextMap)
+//@   loop 1 modifies mapcells(contextMap)
+//@   loop 2 modifies mapcells(contextMap)
+//@   loop 3 modifies mapcells(contextMap)
+//@   loop 4 modifies mapcells(statusMap)
+//@   loop 5 modifies mapcells(statusMap)
+//
+//@ func (*Config).CheckConfigByInfoOneWayWithContext
+//@   noframe
+//@   site ).Write#0 assert [C01,C16] $2 == 1
+//@   site ).Write#1 assert [C01,C16] $2 == 2
+//@   sites ).Write = 2
+//@   sites ).Read = 0
+//@   site TarsInvoke#0 assert [C01,C16] $1 == 1 && $2 == "checkConfigByInfo"
+//@   sites TarsInvoke = 1
